@@ -396,6 +396,14 @@ fn gen_cases(tier: Tier) -> Vec<Case> {
             }
         }
     }
+    // ---------------- a loop whose body waits for a forward reference stays within its limits
+    for (name, body, rects) in [
+        ("until", "<var i=\"0\"/><loop until=\"eq($i, 1)\"><var i=\"{{$i+1}}\"/><rect xy=\"#z|h\" wh=\"1\"/></loop><rect id=\"z\" wh=\"1\"/>", 2usize),
+        ("var-growth", "<var s=\"ab\"/><loop count=\"1\"><var s=\"$s$s\"/><rect xy=\"#z|h\" wh=\"1\"/></loop><rect id=\"z\" wh=\"1\"/>", 2),
+    ] {
+        let cfg = if name == "until" { Cfg::plain() } else { Cfg { var_limit: 4, ..Cfg::plain() } };
+        v.push(Case { family: format!("deferred-loop-body/{name}"), doc: body.to_string(), cfg, expect: Some(rects), unasserted: false, param: 1, limit: if name == "until" { 1000 } else { 4 } });
+    }
     // ---------------- variable length
     for &l in &limits(tier) {
         for via in [false, true] {
